@@ -131,6 +131,16 @@ def run(res: C.Result, deep: bool):
     for i in range(0, len(cases), 30000):
         _feed(res, cases[i:i + 30000])
     res.extra["cases_total"] = len(cases)
+    # the same property on a second session of one Client object (reconnect after disconnect / lost connection)
+    C.use_repo()
+    from .. import client_entry as E
+    rr = E.check_reconnect_state()
+    res.extra["reconnect_cases"] = rr["cases"]
+    res.evaluations += rr["cases"]
+    for f in rr["failures"]:
+        if f["property"] == PROP:
+            res.failures.append(C.Failure(clause="second_session: " + f["what"][:160], case={"client_reconnect": f},
+                                          detail=f["what"]))
     if deep:
         # the FakeSock contract against real loopback TCP (FIN strictly, RST end state only)
         C.use_repo()
@@ -160,6 +170,15 @@ def run(res: C.Result, deep: bool):
 
 
 def replay(body: Dict[str, Any]) -> int:
+    _c = body.get("case") or {}
+    if "client_reconnect" in _c:
+        C.use_repo()
+        from .. import client_entry as E
+        want = _c["client_reconnect"]
+        bad = [f for f in E.check_reconnect_state()["failures"] if f["property"] == PROP and
+               all(f.get(k) == want.get(k) for k in ("first_session_ended_by", "subscribed_to_all", "timecode"))]
+        print(bad or "no failure")
+        return 1 if bad else 0
     jc = body.get("case") or (body.get("first_corr_diff") or {}).get("case")
     if not jc or "case" not in jc:
         print("nothing replayable in this file")
